@@ -130,8 +130,13 @@ def _post_shutdown(cls_name):
         cl.append(("the wrapped executor is shut down exactly once, by the first shutdown() only (repeated shutdown is harmless)", "PC",
                    z3.If(first, z3.BoolVal(len(downs) == 1), z3.BoolVal(len(downs) == 0)), ["C11"]))
         cl.append(("after shutdown() the flag is set (submit() refuses from now on)", "PC", Val.b(st.get("is_shutdown", hid)), ["C11"]))
-        cl.append(("EXEC_INPROGRESS gauge is decremented exactly once, by the first shutdown()", "PC",
-                   z3.If(first, z3.BoolVal(len(gauge) == 1 and gauge[0].meth == "dec"), z3.BoolVal(len(gauge) == 0)), ["C20"]))
+        from .base import label_key
+        mtype = {"MapExecutor": "map", "FlatMapExecutor": "flat_map", "RetryExecutor": "retry", "PollExecutor": "poll", "ThrottleExecutor": "throttle",
+                 "TimeoutExecutor": "timeout", "AsyncioExecutor": "asyncio"}[cls_name]
+        key = label_key(engine, st, mtype, st.get("_name", sid))
+        cl.append(("EXEC_INPROGRESS gauge is decremented exactly once, by the first shutdown(), on the very cell the constructor incremented "
+                   "(type=%r, executor=<its name>)" % mtype, "PC",
+                   z3.If(first, z3.And(z3.BoolVal(len(gauge) == 1 and gauge[0].meth == "dec"), gauge[0].args[0] == key if gauge else False), z3.BoolVal(len(gauge) == 0)), ["C20"]))
         if downs:
             ev = downs[0][1]
             cl.append(("the same wait flag and keyword arguments (cancel_futures...) are passed down, to this executor's own delegate", "PC",
